@@ -150,6 +150,60 @@ def worker(kp, job):
     return {'records': records}
 
 
+def long_worker(kp, job):
+    """a LONG score (1200-1500 lines, single notes without accidental): transposed up and back - every note moved by the
+    interval, every other cell untouched, the round trip restores the export"""
+    seed, idx = job
+    rng = random.Random(seed * 654188383 + idx)
+    n = rng.randint(1200, 1500)
+    letters = ['c', 'd', 'e', 'f', 'g', 'a', 'b', 'cc', 'dd', 'C', 'D', 'GG']
+    lines = ['**kern\t**text', '*clefG2\t*', '*M4/4\t*']
+    notes = []
+    for k in range(n):
+        if k % 4 == 0:
+            lines.append(f'={k // 4 + 1}\t={k // 4 + 1}')
+        p = rng.choice(letters)
+        notes.append((len(lines), p))
+        lines.append(rng.choice(['4', '8', '2']) + p + '\t' + rng.choice(['la', 'li', '.']))
+    lines += ['==\t==', '*-\t*-']
+    text = '\n'.join(lines) + '\n'
+    iv, d = rng.choice([('M2', 'up'), ('m3', 'down'), ('P5', 'up'), ('P4', 'down')])
+    back = 'down' if d == 'up' else 'up'
+    viol = []
+    w = {'text_lines': len(lines), 'interval': iv, 'direction': d, 'first_lines': lines[:6]}
+    try:
+        doc, errs = kp.loads(text)
+        before = kp.dumps(doc).split('\n')
+        t = doc.to_transposed(iv, d)
+        after = kp.dumps(t).split('\n')
+        if len(after) != len(before):
+            viol.append(('moved-only-pitch', f'long score ({len(lines)} lines) by {iv} {d}: the transposed export has {len(after)} lines, the source {len(before)}', w))
+        else:
+            notelines = dict(notes)
+            bad_ = 0
+            for i, (x, y) in enumerate(zip(before, after)):
+                if i in notelines:
+                    e = pitchspec.transpose(notelines[i], '', iv, d)
+                    if e is None:
+                        continue
+                    dur = lines[i].split('\t')[0][:-len(notelines[i])]
+                    want = dur + e[0] + e[1] + '\t' + lines[i].split('\t')[1]
+                    if y != want and bad_ < 1:
+                        bad_ += 1
+                        viol.append(('moved-only-pitch', f'long score by {iv} {d}: line {i + 1} {x!r} became {y!r}, expected {want!r}', w))
+                elif x != y and bad_ < 1:
+                    bad_ += 1
+                    viol.append(('moved-only-pitch', f'long score by {iv} {d}: line {i + 1} {x!r} (no note) became {y!r}', w))
+        rt = kp.dumps(t.to_transposed(iv, back)).split('\n')
+        if rt != before and not viol:
+            viol.append(('round-trip', f'long score ({len(lines)} lines): {iv} {d} then {back} does not restore the export', w))
+    except BaseException as e:
+        if e.__class__.__name__ == 'JobTimeout':
+            raise
+        viol.append(('fails-only-unspellable', f'long score ({len(lines)} lines) by {iv} {d}: {type(e).__name__} although every resulting pitch is spellable', w))
+    return {'records': [engine.rec('long', viol=viol[:2], kind='long-score', key=('long', idx, len(lines)))]}
+
+
 def run(chk):
     b = core.standard_build(chk)
     model = core.Model() if b.modelrun_ok else None
@@ -159,6 +213,7 @@ def run(chk):
                 '5 intervals (3 random of the 40, unison, octave) x a random direction - in the thorough tier and after any drift every fifth document with all 40 intervals in both directions; result and source exported before / after; '
                 'non-trivial = distinct (text, interval, direction)')
     results = engine.pmap(worker, [(chk.seed, i, full) for i in range(n)])
+    results += engine.pmap(long_worker, [(chk.seed, i) for i in range(2 if not full else 6)], nproc=6)
     engine.settle(chk, results, model)
     chk.disagreements_checked = len(chk.broken)
 
